@@ -247,6 +247,15 @@ def gen_program(tape, feat):
         # cycle (the caller caught it and uses the scheduler again)
         prog["prior"]["end"] = tape.pick("prior_end", ["limit", "limit", "raise"])
         prog["prior"]["bomb_at"] = tape.draw("prior_bomb_at", 4)
+    if feat.get("manual_step") and not real and not prog.get("prior") and tape.flag("manual_step", 1, 8):
+        prog["manual"] = True
+        # (extend()/remove() work on the scheduler's own deque, not on one the caller holds: not combined with a stepped run)
+        for nd in nodes.values():
+            for stp in nd.get("steps", []):
+                if stp["act"] in ("extend", "remove"):
+                    stp["act"] = "cont"
+                    stp["y"] = stp.get("y", 0.0)
+            nd.pop("exit_touch", None)
     if feat.get("allow_empty") and prog.get("args", {}).get("doers") and tape.flag("empty_doers", 1, 6):
         # do(doers=[]) on a scheduler that still holds the doers of an earlier use: the run is over the empty set
         prog["stale"] = prog["roots"]
@@ -746,6 +755,40 @@ def build(prog, res=None):
     return run
 
 
+def _manual_run(run, doist):
+    """the run stepped by the caller with a deque of its own, as the API allows: deeds = enter(doers=...); recur(deeds=deeds)
+    until done or the limit; exit(deeds=deeds) - what do() does, spelled out"""
+    from hio.base import tyming as _tyming
+    kw = run.do_kwargs
+    doers = kw.get("doers", doist.doers)
+    doist.doers = list(doers)
+    if kw.get("limit") is not None:
+        doist.limit = abs(float(kw["limit"]))
+    if kw.get("tyme") is not None:
+        doist.tyme = kw["tyme"]
+    doist.done = False
+    run.fault("run_stepped_by_caller_with_own_deque")
+    deeds = None
+    try:
+        deeds = doist.enter(doers=doist.doers)
+        tymer = _tyming.Tymer(tymth=doist.tymen(), duration=doist.limit)
+        while True:
+            try:
+                doist.recur(deeds=deeds)
+                if not deeds:
+                    doist.done = True
+                    break
+                if doist.limit and tymer.expired:
+                    break
+            except KeyboardInterrupt:
+                break
+    finally:
+        run.ev("exit_begin", -1)
+        if deeds is not None:
+            doist.exit(deeds=deeds)
+        run.ev("exit", -1)
+
+
 def execute(prog, res=None, mode="do", vloop_factory=None, noise=None):
     """build and run; returns the Run with its trace sealed"""
     clock = SimClock()
@@ -809,7 +852,9 @@ def execute(prog, res=None, mode="do", vloop_factory=None, noise=None):
     with clock_installed(clock):
         run.ev("do_begin", mode)
         try:
-            if mode == "do":
+            if mode == "do" and prog.get("manual"):
+                _manual_run(run, doist)
+            elif mode == "do":
                 doist.do(**run.do_kwargs)
             else:
                 loop = vloop_factory()
